@@ -281,6 +281,7 @@ pub fn inputs(quick: bool) -> Vec<String> {
     // gets depth <= 3, where the unsolved quantifiers are still cheap to expand
     v.extend(family_h(3));
     v.extend(family_i());
+    v.extend(family_j());
     v.extend(family_f());
     if quick {
         let ab = family_ab();
@@ -325,9 +326,9 @@ pub fn run(mode: Mode, run: &Run) {
     run.set_extra("inputs_generated", json!(total));
     run.set_extra("windows", json!([GW, GW + 3]));
     if mode == Mode::C07 {
-        run.set_rule("every formula of families A-G and I (capture pressure: defined variables over re-binding quantifiers) (atoms, F_1, all quantifier prefixes over F_1, quantified 3-conjunctions, two-level quantifier shapes, depth-2 trees, rewrite-targeted patterns, translation shapes) x 3 portfolios x 3 strategies x all free-variable assignments over the active set x all interpretations; non-trivial = (formula, portfolio, strategy) whose output differs syntactically from its input, counted by distinct output");
+        run.set_rule("every formula of families A-G, I (capture pressure: defined variables over re-binding quantifiers) and J (fresh-name pressure: every subset of the first fresh-name candidates already taken) (atoms, F_1, all quantifier prefixes over F_1, quantified 3-conjunctions, two-level quantifier shapes, depth-2 trees, rewrite-targeted patterns, translation shapes) x 3 portfolios x 3 strategies x all free-variable assignments over the active set x all interpretations; non-trivial = (formula, portfolio, strategy) whose output differs syntactically from its input, counted by distinct output");
     } else {
-        run.set_rule("every formula of families A-G and the deep chains of family H (depth <= 24, thorough 40, every level needing its own pass) x 3 portfolios: fixpoint iteration re-run pass by pass with cycle detection, then the real apply_fixpoint compared and re-applied; non-trivial = distinct number-of-passes/outputs of formulas that changed");
+        run.set_rule("every formula of families A-G, I, J and the deep chains of family H (depth <= 24, thorough 40, every level needing its own pass) x 3 portfolios: fixpoint iteration re-run pass by pass with cycle detection, then the real apply_fixpoint compared and re-applied; non-trivial = distinct number-of-passes/outputs of formulas that changed");
     }
     run.assume("generic formulas over predicates p/0, q/1, active set {1,2,a}; unsolved quantifiers over windows 5/8 (outer) and 11/14 (inner), verdicts must be window-stable");
     let sem0 = generic_sem();
@@ -337,6 +338,7 @@ pub fn run(mode: Mode, run: &Run) {
     idx.par_iter().for_each(|&i0| {
         let i = (i0 + seed) % total;
         let text = &all[i];
+        let _w = run.watch("formula", "formula", text);
         let f: fol::Formula = match text.parse() {
             Ok(f) => f,
             Err(_) => {
